@@ -12,7 +12,7 @@ from . import boot
 from .engine import Explorer, HarnessError
 
 VERIF = boot.VERIF
-EVID = os.path.join(VERIF, "evidence")
+EVID = os.environ.get("JMC_EVID_DIR") or os.path.join(VERIF, "evidence")
 REPLAYS = os.path.join(VERIF, "replays")
 KNOWN = os.path.join(VERIF, "known_findings.json")
 NCPU = int(os.environ.get("JMC_WORKERS", str(os.cpu_count() or 4)))
@@ -158,7 +158,8 @@ def write_replay(prop, v):
         v["task"] = t
     payload = dict(property=prop, sig=v.get("sig"), message=v.get("message"), task=v.get("task"),
                    choices=v.get("choices"), labels=v.get("labels"), trace=v.get("trace"),
-                   kind=v.get("kind", "schedule"), case=v.get("case"))
+                   kind=v.get("kind", "schedule"), case=v.get("case"), check=v.get("check"),
+                   tier=v.get("tier"))
     h = hashlib.blake2b(json.dumps(payload, sort_keys=True, default=str).encode(), digest_size=6).hexdigest()
     path = os.path.join(REPLAYS, f"{prop}-{h}.json")
     with open(path, "w") as f:
